@@ -493,6 +493,19 @@ fn may_write(op: &Op, u: usize, side: Side, directed: bool) -> bool {
     }
 }
 
+/// undirected: may this mutating call change the list of edges node `u` CREATED (the half-edges
+/// it holds as the calling endpoint of `connect`)? A `connect(x, u)` of another task write-locks
+/// `u` and adds to its other list, but leaves the edges `u` created alone - and those are what a
+/// serialisation lists under `u`.
+fn may_write_created(op: &Op, u: usize) -> bool {
+    match op {
+        Op::Isolate { .. } => true,
+        Op::Connect { u: a, .. } | Op::TryConnect { u: a, .. } => *a == u,
+        Op::Disconnect { u: a, k, .. } => *a == u || *k == u,
+        _ => false,
+    }
+}
+
 /// the ordered (directed) or unordered pair of nodes whose edges alone decide the answer
 fn pair_read(op: &Op, directed: bool) -> Option<(usize, usize)> {
     match op {
@@ -606,7 +619,12 @@ fn read_consistency(sc: &ConcSc, m0: &Model, results: &[Vec<Obs>], stats: &mut S
                     }
                     (6, Obs::Edges(es)) => {
                         for u in 0..own.n {
-                            if writes(u, if directed { Side::Out } else { Side::Both }) {
+                            let others_may_change_it = if directed {
+                                writes(u, Side::Out)
+                            } else {
+                                sc.tasks.iter().enumerate().any(|(t2, s2)| t2 != t && s2.iter().any(|o| o.is_mutation() && may_write_created(o, u)))
+                            };
+                            if others_may_change_it {
                                 continue;
                             }
                             stats.inc("container_views_checked");
